@@ -151,6 +151,43 @@ Proof.
 Qed.
 Print Assumptions c04_frame_emit_sound_refuted.
 
+(* ---- range frames beyond one ascending key (round 2): descending keys, several keys, NULL keys, no sort ----
+   The documented segment is read the generalised way (Model/Window.v segx: bound 0 = the peers under ALL keys, an
+   offset = key values further ALONG the order of the single key, descending included); on Rel.v's domain it is Rel.v's: *)
+Theorem c04_range_reading_agrees_with_rel : forall fr keys p i,
+  (i < length p)%nat -> range_key_ok keys p -> segx fr keys p i = seg fr keys p i.
+Proof. exact segx_agrees. Qed.
+Print Assumptions c04_range_reading_agrees_with_rel.
+
+(* ... and the emitted -- or elided -- clause selects exactly that segment, for every frame, every list of sort keys (none,
+   one, several; ascending or descending), every partition and position.  `range_domain` (no offsets, or one key that is
+   an integer on every row) is where the SPECIFICATION of SQL used here is validated against the engines *)
+Theorem c04_frame_emit_sound_x : forall f keys p i,
+  (frame_kind f = KRange -> range_domain f keys p) ->
+  sql_frame_segment (emit_frame true (is_sorted keys) f) keys p i = prql_segmentx f keys p i.
+Proof. exact frame_emit_sound_x. Qed.
+Print Assumptions c04_frame_emit_sound_x.
+
+(* which of the emitted clauses the engines accept.  FULL STATEMENT (false, F56):
+     forall k a b n, (a <= b) -> sql_accepts (to_sframe (k, a, b)) n = true
+   -- every frame the `window` transform lets through becomes a clause SQL accepts.  It holds for ROWS frames and for
+   RANGE frames without a numeric offset or over exactly one sort key; `sort {a, b} | window range:-1..0` and
+   `window range:-1..0` without a sort compile to SQL that no engine accepts *)
+Theorem c04_emitted_frame_accepted_partial : forall k a b n,
+  (forall x y, a = Some x -> b = Some y -> x <= y) ->
+  sql_accepts (to_sframe (k, a, b)) n = match k with KRows => true | KRange => offset_free (KRange, a, b) || Nat.eqb n 1 end.
+Proof. intros k a b n H. destruct k; [apply emitted_rows_accepted | apply emitted_range_accepted]; exact H. Qed.
+Print Assumptions c04_emitted_frame_accepted_partial.
+
+Theorem c04_emitted_frame_accepted_refuted : exists k a b n,
+  (forall x y, a = Some x -> b = Some y -> x <= y) /\ frame_of (args_range a b) = WFrame (k, a, b) /\
+  sql_accepts (to_sframe (k, a, b)) n = false.
+Proof.
+  exists KRange, (Some (-1)), (Some 0), 2%nat. split; [intros x y E1 E2; injection E1 as <-; injection E2 as <-; vm_compute; discriminate|].
+  split; vm_compute; reflexivity.
+Qed.
+Print Assumptions c04_emitted_frame_accepted_refuted.
+
 (* ties: the implicit RANGE frame includes the peers of the current row, `rows:..0` does not; the code keeps
    them apart (only range:..0 is elided under a sort) *)
 Theorem c04_ties_default_vs_rows :
@@ -355,6 +392,20 @@ Theorem c04_xgroup_window_preserves_rows : forall by_ fr keys cols l,
 Proof. intros. split; [apply xgroupwin_length | apply xgroupwin_perm]. Qed.
 Print Assumptions c04_xgroup_window_preserves_rows.
 
+(* ... and under a range frame read the generalised way *)
+Theorem c04_xwindow_range_preserves_rows : forall a b keys cols l,
+  length (applyx (XWinR a b keys cols) l) = length l /\
+  Permutation (map (fun r => vals (strip (length cols) r)) (applyx (XWinR a b keys cols) l)) (map vals l).
+Proof. exact xwinr_preserves_rows. Qed.
+Print Assumptions c04_xwindow_range_preserves_rows.
+
+Theorem c04_xgroup_window_range_preserves_rows : forall by_ a b keys cols l,
+  length (applyx (XGroupWinR by_ a b keys cols) l) = length l /\
+  (cols_not_keys by_ cols ->
+   Permutation (map (fun r => vals (strip (length cols) r)) (applyx (XGroupWinR by_ a b keys cols) l)) (map (fun r => vals (by_first by_ r)) l)).
+Proof. intros. split; [apply xgroupwinr_length | apply xgroupwinr_perm]. Qed.
+Print Assumptions c04_xgroup_window_range_preserves_rows.
+
 (* per-group `sort | take n` keeps, in each sorted group, exactly the rows whose row_number is <= n
    (what sql/pq/preprocess.rs emits: ROW_NUMBER() OVER (PARTITION BY .. ORDER BY ..) <= n) *)
 Theorem c04_take_in_group_is_row_number : forall by_ keys n l,
@@ -401,3 +452,15 @@ Example c04_ex_reorder :
   reorder_tags model_reorder_policy [0; 2; 3; 10; 12]%N = [0; 3; 1; 2; 4]%N /\
   reorder_tags model_reorder_policy [0; 3; 2; 12]%N = [0; 1; 3; 2]%N.
 Proof. repeat split; vm_compute; reflexivity. Qed.
+(* range frames over two keys with a tie on the first: `range:0..0` separates the tied rows (peers are equal under BOTH
+   keys) where one key alone would not; with an offset the clause is one no engine accepts; along a descending key
+   `range:-1..0` is the values k+1 down to k *)
+Example c04_ex_range_two_keys :
+  prql_segmentx (KRange, Some 0, Some 0) x_keys2 t_part 0 = [0%nat] /\
+  sql_frame_segment (emit_frame true true (KRange, Some 0, Some 0)) x_keys2 t_part 0 = [0%nat] /\
+  prql_segmentx (KRange, Some 0, Some 0) w_keys t_part 0 = [0; 1]%nat /\
+  sql_accepts (to_sframe (KRange, Some 0, Some 0)) 2 = true /\
+  sql_accepts (to_sframe (KRange, Some (-1), Some 0)) 2 = false /\
+  sql_accepts (to_sframe (KRange, Some (-1), Some 0)) 0 = false /\
+  prql_segmentx (KRange, Some (-1), Some 0) [(true, w_key)] w_part 1 = [1; 2]%nat.
+Proof. exact range_two_keys_witness. Qed.
